@@ -115,6 +115,9 @@ def _is_unit_assign(s):
 def disjunct_facts(body, sym, facts, bb):
     """List of fact-lists, one per way control can merge into bb (see goto_preds). If bb has a single
     predecessor chain this is one conjunction."""
+    if getattr(body, "changed", False):
+        from analysis.guards import path_facts
+        return path_facts(body, sym, facts, bb)
     leaves = goto_preds(body, bb)
     if not leaves:
         return [facts_at(body, sym, facts, bb)]
@@ -183,10 +186,24 @@ def _edge_fact(body, sym, facts, s, succ):
 def blocks_assigning_variant(body, adt, variant, dest_local=0):
     """Blocks where `_dest = adt::variant{..}` is assigned (e.g. `_0 = Result::Ok(..)`)."""
     out = []
+    sym = None
+    live = None
     for i, j, s in body.assigns():
         rv = s["rv"]
         if s["place"]["l"] == dest_local and not s["place"]["p"] and rv.get("agg") == "adt" and rv["adt"] == adt and rv["variant"] == variant:
             out.append((i, j, s))
+        elif s["place"]["l"] == dest_local and not s["place"]["p"] and "use" in rv and getattr(body, "changed", False):
+            # the value was built elsewhere (a helper's result, a combinator's payload) and arrives here by a move: in a function
+            # that differs from the reference tree, resolve it by the definitions reaching this point
+            if sym is None:
+                from analysis.sym import Sym
+                sym = Sym(body)
+                live = body.live_blocks()
+            if i not in live:
+                continue
+            v = sym.at(i, j).rvalue(rv)
+            if v[0] == "agg" and v[1] == adt and v[2] == variant:
+                out.append((i, j, s))
     return out
 
 
@@ -283,25 +300,35 @@ def value_rows(body, sym, facts, local, depth=2, fmt=None):
             blk = body.blocks[i]
             pts = [(j, st["rv"]) for j, st in enumerate(blk["stmts"]) if st["k"] == "assign" and not st["place"]["p"] and st["place"]["l"] == local]
             t = blk["term"]
+            pts = [(j, rv, None) for j, rv in pts]
             if t["k"] == "call" and not t["dest"]["p"] and t["dest"]["l"] == local:
-                out.append((sorted(set(_gtexts(facts_at(body, sym, facts, i), fmt, ords))), ("call", t["callee"]["path"], tuple(sym.at(i).op(a) for a in t["args"]), i)))
-            for j, rv in pts:
-                alts = split_rows(sym, i, j, rv)
+                pts.append((len(blk["stmts"]), None, t))
+            for j, rv, ct in pts:
+                if ct is not None:
+                    from analysis.sym import split_eval
+                    alts = split_eval(sym, i, j, lambda v_, ct=ct, i=i: ("call", ct["callee"]["path"], tuple(v_.op(a) for a in ct["args"]), i))
+                else:
+                    alts = split_rows(sym, i, j, rv)
                 if alts is None:
                     okall = False
                     break
+                from analysis.guards import path_facts
                 for ch, v in alts:
-                    fs = list(facts_at(body, sym, facts, i))
-                    have = {f["text"] for f in fs}
-                    for pt in ch.values():
-                        if pt[0] >= 0:
-                            for f in facts_at(body, sym, facts, pt[0]):
-                                if f["text"] not in have:
-                                    have.add(f["text"])
-                                    fs.append(f)
-                    if infeasible(fs):
-                        continue
-                    out.append((sorted(set(_gtexts(fs, fmt, ords))), v))
+                    # a row block several edges lead into (`a || b` arms, `A | B =>`) is one row per way in
+                    for base in path_facts(body, sym, facts, i):
+                        fs = list(base)
+                        have = {f["text"] for f in fs}
+                        for pt in ch.values():
+                            if pt[0] >= 0:
+                                for f in facts_at(body, sym, facts, pt[0]):
+                                    if f["text"] not in have:
+                                        have.add(f["text"])
+                                        fs.append(f)
+                        if infeasible(fs):
+                            continue
+                        row = (sorted(set(_gtexts(fs, fmt, ords))), v)
+                        if row not in out:
+                            out.append(row)
             if not okall:
                 break
         if okall:
